@@ -168,7 +168,7 @@ func (e *Exec) callStatic(fr *Frame, st *BState, x *ssa.Call, f *ssa.Function, a
 		return ext(e, st, x, args)
 	}
 	if ct := e.contractOf(f); ct != nil && !ct.Flags["inline"] && e.expanding != f {
-		return e.callByContract(fr, st, x, f, ct, args)
+		return e.callByContract(fr, st, x, f, ct, args, bind)
 	}
 	if uf, ok := recursiveUF[f]; ok && recursive(fr, f) {
 		// recursive call: the function's own spec function (induction hypothesis is supplied by the lemma)
@@ -519,8 +519,13 @@ func (e *Exec) sprintfTerm(fr *Frame, st *BState, x *ssa.Call, args []SV) (*Term
 
 // callByContract is the modular call rule: the caller proves the callee's requires, the callee's frame is havoc'd,
 // and the callee's ensures (and definitional clauses) are assumed for fresh results.
-func (e *Exec) callByContract(fr *Frame, st *BState, x *ssa.Call, f *ssa.Function, ct *FuncContract, args []SV) SV {
-	cf := &Frame{fn: f, regs: map[ssa.Value]SV{}, contractOnly: true}
+func (e *Exec) callByContract(fr *Frame, st *BState, x *ssa.Call, f *ssa.Function, ct *FuncContract, args []SV, bind []SV) SV {
+	cf := &Frame{fn: f, regs: map[ssa.Value]SV{}, contractOnly: true, bind: bind}
+	for i, fv := range f.FreeVars {
+		if i < len(bind) {
+			cf.regs[fv] = bind[i]
+		}
+	}
 	for i, p := range f.Params {
 		cf.regs[p] = args[i]
 	}
@@ -556,6 +561,16 @@ func (e *Exec) callByContract(fr *Frame, st *BState, x *ssa.Call, f *ssa.Functio
 		nf := e.fresh("call.frontier", SInt)
 		e.assume(le(old, nf))
 		st.ghost["$frontier"] = intSV(nf)
+		// captured variables of the caller that the callee (a literal of the caller) assigns
+		cbCells := map[*ssa.Alloc]bool{}
+		assignedCells(f, map[*ssa.Function]bool{}, cbCells)
+		for a := range cbCells {
+			if _, ok := st.cells[a]; ok {
+				nv := e.freshSV(a.Type().(*types.Pointer).Elem(), "call."+a.Comment, st.reach, false)
+				e.saneInput(st, a.Type().(*types.Pointer).Elem(), nv, tTrue)
+				st.cells[a] = nv
+			}
+		}
 		// a pointer argument into the interior of a caller object (e.g. &c.sum): the callee may write through it
 		for _, a := range args {
 			if p, ok := a.(*PtrV); ok && p.LV != nil {
